@@ -81,8 +81,18 @@ const TOP_PLACEMENTS = {
   top_export_default_obj: P(['var t3 = { kk: ', 0, ' };'], [{ ident: 'kk' }])
 }
 const LAYOUTS = ['same_line', 'own_line', 'after_bmp', 'crlf', 'tabs']
+// how the literal is SPELLED: the report carries the decoded value, the window counts bytes of the value
+const SPELLINGS = {
+  plain: (v) => ({ src: v, value: v }),
+  escaped_n: (v) => ({ src: v.slice(0, 3) + '\\n' + v.slice(4), value: v.slice(0, 3) + '\n' + v.slice(4) }),
+  unicode_escape: (v) => ({ src: v.slice(0, 3) + '\\u00f1' + v.slice(4), value: v.slice(0, 3) + 'ñ' + v.slice(4) }),
+  hex_escape: (v) => ({ src: v.slice(0, 3) + '\\x41' + v.slice(4), value: v.slice(0, 3) + 'A' + v.slice(4) }),
+  line_continuation: (v) => ({ src: v.slice(0, 3) + '\\\n' + v.slice(3), value: v }),
+  double_quotes: (v) => ({ src: v, value: v, quote: '"' })
+}
 
-function buildProgram (placeName, lenIdx, layout, multiplicity, modified, same) {
+function buildProgram (placeName, lenIdx, layout, multiplicity, modified, same, spelling) {
+  const spell = SPELLINGS[spelling || 'plain']
   const place = PLACEMENTS[placeName] || TOP_PLACEMENTS[placeName]
   const top = !!TOP_PLACEMENTS[placeName]
   const eol = layout === 'crlf' ? '\r\n' : '\n'
@@ -93,8 +103,10 @@ function buildProgram (placeName, lenIdx, layout, multiplicity, modified, same) 
     if (layout === 'own_line') emit(eol + '      ')
     if (layout === 'after_bmp') emit("/* ñ€ */ ")
     if (layout === 'tabs') emit('\t\t')
-    lits.push({ value, offset: text.length, ident: opts.ident || null, excluded: !!opts.excluded })
-    emit("'" + value + "'")
+    const sp = spell(value)
+    const q = sp.quote || "'"
+    lits.push({ value: sp.value, offset: text.length, ident: opts.ident || null, excluded: !!opts.excluded, quote: q, src: sp.src })
+    emit(q + sp.src + q)
   }
   const [bytes, kind] = LENGTHS[lenIdx]
   // `same`: every slot of the placement holds the SAME value (two occurrences of one value in one operation)
@@ -131,10 +143,11 @@ async function build (tier) {
     { name: 'mult', symbols: ['once', 'twice'] },
     { name: 'modified', symbols: [true, false], free: true },
     { name: 'literals', symbols: ['omitted', true, false] },
-    { name: 'same', symbols: [false, true], free: true }
+    { name: 'same', symbols: [false, true], free: true },
+    { name: 'spelling', symbols: Object.keys(SPELLINGS) }
   ]
   const r = enumerate(dims, { k: tier === 'thorough' ? 3 : 1 })
-  const leaves = r.leaves.filter((l) => !l.pick.same || (PLACEMENTS[l.pick.place] || TOP_PLACEMENTS[l.pick.place]).slots.length > 1).map((l) => ({ key: [l.pick.place, l.pick.len, l.pick.layout, l.pick.mult, l.pick.modified, l.pick.literals, l.pick.same].join('¦'), pick: l.pick }))
+  const leaves = r.leaves.filter((l) => !l.pick.same || (PLACEMENTS[l.pick.place] || TOP_PLACEMENTS[l.pick.place]).slots.length > 1).map((l) => ({ key: [l.pick.place, l.pick.len, l.pick.layout, l.pick.mult, l.pick.modified, l.pick.literals, l.pick.same, l.pick.spelling].join('¦'), pick: l.pick }))
   return { leaves, stats: r.stats, bound: { deviations_k_over_layout_multiplicity_literalsOption: tier === 'thorough' ? 3 : 1, placements: Object.keys(PLACEMENTS).length + Object.keys(TOP_PLACEMENTS).length, lengths: lens.length }, alphabets: { placements: Object.keys(PLACEMENTS).concat(Object.keys(TOP_PLACEMENTS)), lengths: LENGTHS.map((x) => x.join(':')), layouts: LAYOUTS } }
 }
 
@@ -146,7 +159,7 @@ function cfgOf (pick, base) {
 
 function requests (leaf) {
   const p = leaf.pick
-  const prog = buildProgram(p.place, p.len, p.layout, p.mult, p.modified, p.same)
+  const prog = buildProgram(p.place, p.len, p.layout, p.mult, p.modified, p.same, p.spelling)
   return [
     { config: cfgOf(p, C.FULL), file: '/p/lit.js', code: prog.text },
     { config: cfgOf(p, C.NOTHING), file: '/p/lit.js', code: prog.text }
@@ -161,7 +174,7 @@ function reported (r) {
 
 async function check (leaf, resps) {
   const p = leaf.pick
-  const prog = buildProgram(p.place, p.len, p.layout, p.mult, p.modified, p.same)
+  const prog = buildProgram(p.place, p.len, p.layout, p.mult, p.modified, p.same, p.spelling)
   const res = { nontrivial: true, outcome: 'ok', violations: [], distinctKey: prog.text + '|' + p.literals }
   const v = (rule, sig, detail) => res.violations.push({ rule, sig, detail: detail + '\n  leaf: ' + leaf.key + '\n' + prog.text.slice(0, 500) })
   const [r, r0] = resps
@@ -194,8 +207,10 @@ async function check (leaf, resps) {
   for (const g of gs) {
     const [val, line, col] = JSON.parse(g)
     const cps = Array.from(lines[line - 1] || '')
-    const at = cps.slice(col - 1, col - 1 + Array.from(val).length + 1).join('')
-    if (at !== "'" + val) { v('location-not-on-literal', p.place, `reported position ${line}:${col} does not hold the literal (text there: ${JSON.stringify(at.slice(0, 30))})`); break }
+    const lit = prog.lits.find((x) => x.value === val)
+    const expectText = lit ? lit.quote + lit.src.split('\n')[0] : "'" + val
+    const at = cps.slice(col - 1, col - 1 + Array.from(expectText).length).join('')
+    if (at !== expectText) { v('location-not-on-literal', p.place, `reported position ${line}:${col} does not hold the literal (text there: ${JSON.stringify(at.slice(0, 30))})`); break }
   }
   // instrumentation never adds, removes, duplicates or relocates entries
   if (r0.status === 'ok' && r0.literalsResult) {
